@@ -53,6 +53,9 @@ class MI(SymInterp):
             return [('ok', C(None), st.emit('save', args[0], args[1]))]
         if m in ('squeeze', 'astype', 'max', 'min', 'items', 'copy'):
             return [('ok', T('m', m, recv, *args), st)]
+        if m in ('argsort', 'take') and not (is_t(recv) and recv[1] == 'mod'):
+            # x.argsort(..) / x.take(..) are np.argsort(x, ..) / np.take(x, ..)
+            return [('ok', T('call', 'np.' + m, C(0), recv, *(tuple(args) + tuple(T('kw', k_, v_) for k_, v_ in sorted(kwargs.items())))), st)]
         if m == 'append' and isinstance(call.func.value, ast.Attribute) and len(args) == 1:
             return [('ok', C(None), st.emit('append', recv, call.func.value.attr, args[0]))]
         if m == 'append' and isinstance(call.func.value, ast.Name) and len(args) == 1:
@@ -66,6 +69,34 @@ def _strip(t):
     if is_t(t):
         return T(t[1], *[_strip(x) for x in t[2:]])
     return t
+
+
+def _canon(t):
+    """Normal form of a stripped term: np.take(a, i) / np.take(a, i, axis=0) is a[i]; a one-element `star(x)` stays."""
+    if is_t(t):
+        t = T(t[1], *[_canon(x) for x in t[2:]])
+        if t[1] == 'call' and t[2] == 'np.take' and len(t) >= 5:
+            kws = {a[2]: a[3] for a in t[5:] if is_t(a) and a[1] == 'kw'}
+            pos = [a for a in t[5:] if not (is_t(a) and a[1] == 'kw')]
+            ax = kws.get('axis', pos[0] if pos else C(0))
+            if set(kws) <= {'axis'} and len(pos) <= 1 and ax == C(0):
+                return T('index', t[3], t[4])
+    return t
+
+
+def _vocab(t, allowed):
+    """True when every called function of the term is in `allowed`: the term is a DIFFERENT arrangement of known operations (a definite difference), not an
+    unknown construct."""
+    return all(not (is_t(x) and x[1] == 'call') or x[2] in allowed for x in subterms(t))
+
+
+def _seq_arg(fi, lst):
+    """How a caller passes the list `lst` of arrays to helper `fi`: unpacked when the helper takes *args, as it is otherwise."""
+    return T('star', lst) if fi.vararg else lst
+
+
+def _seq_param(fi):
+    return T('param*', fi.vararg) if fi.vararg else T('param', fi.params[0])
 
 
 def helpers(ctx):
@@ -129,32 +160,55 @@ def helpers(ctx):
     I = MI(repo, unroll=1, inline_depth=0)
     outs = I.run(ft)
     good = [val for kind, val, st in outs if kind == 'return']
-    okt, why = False, ''
+    VOC = {'_concat', 'np.argsort', 'np.sort', 'np.lexsort', 'np.concatenate', 'np.flip', 'np.take', 'np.unique', 'np.arange', 'len', 'sorted'}
+    okt, why, und = False, '', ''
     for v in good:
-        v = _strip(v)
+        v = _canon(_strip(v))
         if is_t(v) and v[1] == 'tuple' and len(v) == 4:
             times, order = v[2], v[3]
-            cat = T('call', '_concat', T('param*', ft.vararg or 'spike_times_l'))
-            o_ok = is_t(order) and order[1] == 'call' and order[2] == 'np.argsort' and order[3] == cat
-            kinds = [a[3] for a in order[4:] if is_t(a) and a[1] == 'kw' and a[2] == 'kind'] if is_t(order) else []
+            cat = T('call', '_concat', _seq_param(ft))
+            cats = (cat, T('call', '_concat', _seq_param(ft), T('kw', 'axis', C(0))))
+            o_ok = is_t(order) and order[1] == 'call' and order[2] == 'np.argsort' and len(order) > 3 and order[3] in cats
+            kws = {a[2]: a[3] for a in order[4:] if is_t(a) and a[1] == 'kw'} if is_t(order) else {}
+            kinds = [kws['kind']] if 'kind' in kws else []
             stable = bool(kinds) and is_c(kinds[0]) and kinds[0][1] in ('stable', 'mergesort')
-            t_ok = times == T('index', cat, order)
+            t_ok = any(times == T('index', c_, order) for c_ in cats)
             okt = o_ok and stable and t_ok
             if not o_ok:
-                why = 'the order is %s, not argsort of the concatenated times' % show(order)[:70]
+                if _vocab(order, VOC):
+                    why = 'the order is %s, not argsort of the concatenated times' % show(order)[:70]
+                else:
+                    und = 'computation of the spike order `%s` not recognised' % show(order)[:70]
             elif not stable:
-                why = 'the argsort is not stable (kind=%s): simultaneous spikes are not kept in input order' % (show(kinds[0]) if kinds else 'default quicksort')
+                if not kinds or is_c(kinds[0]):
+                    why = 'the argsort is not stable (kind=%s): simultaneous spikes are not kept in input order' % (show(kinds[0]) if kinds else 'default quicksort')
+                else:
+                    und = 'sort kind `%s` not a constant' % show(kinds[0])
             elif not t_ok:
-                why = 'the merged times are %s, not concatenated times[order]' % show(times)[:60]
-    ctx.check(okt, 'C11.A1', ft, '_load_multiple_spike_times', 'spike_order = stable argsort of the concatenated spike times; merged times = concatenated[order]',
-              why or '_load_multiple_spike_times does not return (concat[order], order)')
+                if _vocab(times, VOC):
+                    why = 'the merged times are %s, not concatenated times[order]' % show(times)[:60]
+                else:
+                    und = 'computation of the merged times `%s` not recognised' % show(times)[:60]
+        else:
+            und = '_load_multiple_spike_times does not return a pair (%s)' % show(v)[:60]
+    if okt:
+        ctx.holds('C11.A1', ft, 'spike_order = stable argsort of the concatenated spike times; merged times = concatenated[order]', '_load_multiple_spike_times')
+    elif why:
+        ctx.violated('C11.A1', ft, '_load_multiple_spike_times', why)
+    else:
+        ctx.undecided('C11.A1', ft, und or 'no return of _load_multiple_spike_times was reached')
     fa = repo.func(MG, '_load_multiple_spike_arrays')
     outs = MI(repo, unroll=1, inline_depth=0).run(fa)
-    good = [_strip(val) for kind, val, st in outs if kind == 'return']
-    want = T('index', T('call', '_concat', T('param*', fa.vararg or 'spike_array_l'), T('kw', 'axis', C(0))), T('param', 'spike_order'))
-    want2 = T('index', T('call', '_concat', T('param*', fa.vararg or 'spike_array_l')), T('param', 'spike_order'))
-    ctx.check(bool(good) and all(v in (want, want2) for v in good), 'C11.A1', fa, '_load_multiple_spike_arrays', 'per-spike arrays = concatenate(arrays)[spike_order]',
-              '_load_multiple_spike_arrays returns %s, not concatenate(arrays)[spike_order]' % [show(v)[:70] for v in good][:1])
+    good = [_canon(_strip(val)) for kind, val, st in outs if kind == 'return']
+    op = T('param', 'spike_order') if 'spike_order' in fa.params + fa.kwonly else None
+    wants = [T('index', T('call', '_concat', _seq_param(fa), T('kw', 'axis', C(0))), op), T('index', T('call', '_concat', _seq_param(fa)), op)]
+    if op is not None and good and all(v in wants for v in good):
+        ctx.holds('C11.A1', fa, 'per-spike arrays = concatenate(arrays)[spike_order]', '_load_multiple_spike_arrays')
+    elif op is not None and good and any(v not in wants and _vocab(v, VOC) for v in good):
+        b_ = [v for v in good if v not in wants and _vocab(v, VOC)][0]
+        ctx.violated('C11.A1', fa, '_load_multiple_spike_arrays', '_load_multiple_spike_arrays returns %s, not concatenate(arrays)[spike_order]' % show(b_)[:70])
+    else:
+        ctx.undecided('C11.A1', fa, '_load_multiple_spike_arrays: returned value not recognised (%s)' % [show(v)[:70] for v in good][:1])
 
 
 def a1_saved(ctx):
@@ -165,32 +219,49 @@ def a1_saved(ctx):
     # write_spike_times
     f = repo.lookup_method(cls, 'write_spike_times')
     outs = MI(repo, unroll=1, inline_depth=0).run(f, env={f.params[0]: me})
-    ok = False
+    ft_, fa_ = repo.func(MG, '_load_multiple_spike_times'), repo.func(MG, '_load_multiple_spike_arrays')
+    VOCW = {'_load_multiple_spike_times', '_load_multiple_spike_arrays', '_load_multiple_files', '_concat', 'np.argsort', 'np.sort', 'np.take', 'np.concatenate', 'len', 'sorted'}
+    ok = known_voc = False
     for kind, val, st in outs:
         sv = [e for e in st.trace if e[0] == 'save']
         so = [e for e in st.trace if e[0] == 'store' and e[2] == 'spike_order']
         if len(sv) == 1 and sv[0][1] == C('spike_times.npy') and so:
-            src = T('call', '_load_multiple_spike_times', T('star', T('call', '_load_multiple_files', C('spike_times.npy'), subdirs)))
-            ok = _strip(sv[0][2]) == T('item', src, C(0)) and _strip(so[0][3]) == T('item', src, C(1))
-    ctx.check(ok, 'C11.A1', f, 'write_spike_times', 'spike_times.npy = merged times of spike_times.npy of all inputs; self.spike_order = the matching order',
-              'write_spike_times does not save the merged times and register the matching order')
+            src = T('call', '_load_multiple_spike_times', _seq_arg(ft_, T('call', '_load_multiple_files', C('spike_times.npy'), subdirs)))
+            got_t, got_o = _strip(sv[0][2]), _strip(so[0][3])
+            ok = got_t == T('item', src, C(0)) and got_o == T('item', src, C(1))
+            known_voc = _vocab(got_t, VOCW) and _vocab(got_o, VOCW)
+    if ok:
+        ctx.holds('C11.A1', f, 'spike_times.npy = merged times of spike_times.npy of all inputs; self.spike_order = the matching order', 'write_spike_times')
+    elif known_voc:
+        ctx.violated('C11.A1', f, 'write_spike_times', 'write_spike_times does not save the merged times and register the matching order')
+    else:
+        ctx.undecided('C11.A1', f, 'write_spike_times: the saved times / registered order were not recognised')
     # write_spike_data
     f = repo.lookup_method(cls, 'write_spike_data')
     outs = MI(repo, unroll=2, inline_depth=0).run(f, env={f.params[0]: me})
     saved = {}
-    bad = []
+    bad, unk = [], []
     for kind, val, st in outs:
         for e in st.trace:
             if e[0] == 'save':
                 name, arr = e[1], _strip(e[2])
-                want = T('call', '_load_multiple_spike_arrays', T('star', T('call', '_load_multiple_files', name, subdirs)), T('kw', 'spike_order', order))
+                want = T('call', '_load_multiple_spike_arrays', _seq_arg(fa_, T('call', '_load_multiple_files', name, subdirs)), T('kw', 'spike_order', order))
+                want_pos = T('call', '_load_multiple_spike_arrays', _seq_arg(fa_, T('call', '_load_multiple_files', name, subdirs)), order)
                 if is_c(name):
-                    saved[name[1]] = arr == want
-                    if arr != want:
+                    good_ = arr == want or (arr == want_pos and not fa_.vararg and fa_.params[1:2] == ['spike_order'])
+                    saved[name[1]] = good_
+                    if not good_ and _vocab(arr, VOCW):
                         bad.append('%s is saved as %s' % (name[1], show(arr)[:80]))
-    ctx.check(saved.get('amplitudes.npy') is True and not bad, 'C11.A1', f, 'write_spike_data',
-              'amplitudes.npy (and every other per-spike file of write_spike_data: %s) = concat(inputs)[spike_order]' % sorted(saved),
-              bad[0] if bad else 'amplitudes.npy is not written by write_spike_data (files: %s)' % sorted(saved))
+                    elif not good_:
+                        unk.append(name[1])
+    if saved.get('amplitudes.npy') is True and not bad and not unk:
+        ctx.holds('C11.A1', f, 'amplitudes.npy (and every other per-spike file of write_spike_data: %s) = concat(inputs)[spike_order]' % sorted(saved), 'write_spike_data')
+    elif bad:
+        ctx.violated('C11.A1', f, 'write_spike_data', bad[0])
+    elif 'amplitudes.npy' not in saved and saved and not unk:
+        ctx.violated('C11.A1', f, 'write_spike_data', 'amplitudes.npy is not written by write_spike_data (files: %s)' % sorted(saved))
+    else:
+        ctx.undecided('C11.A1', f, 'write_spike_data: what is saved under %s was not recognised' % (unk or 'amplitudes.npy'))
 
 
 def s1_offsets(ctx):
@@ -318,8 +389,19 @@ def s1_offsets(ctx):
     order = T('attr', me, 'spike_order')
     for nm in ('spike_clusters.npy', 'spike_templates.npy'):
         arr = names.get(nm)
-        want = T('call', '_load_multiple_spike_arrays', T('star', T('call', '_load_multiple_files', C(nm), T('attr', me, 'subdirs'))), T('kw', 'spike_order', order))
-        ctx.check(arr == want, 'C11.A1', f, nm, '%s = concat(shifted inputs)[spike_order]' % nm, '%s is saved as %s' % (nm, show(arr)[:90] if arr is not None else 'nothing'))
+        fa_ = repo.func(MG, '_load_multiple_spike_arrays')
+        lst = T('call', '_load_multiple_files', C(nm), T('attr', me, 'subdirs'))
+        want = T('call', '_load_multiple_spike_arrays', _seq_arg(fa_, lst), T('kw', 'spike_order', order))
+        want_pos = T('call', '_load_multiple_spike_arrays', _seq_arg(fa_, lst), order)
+        VOCW = {'_load_multiple_spike_times', '_load_multiple_spike_arrays', '_load_multiple_files', '_concat', 'np.argsort', 'np.sort', 'np.take', 'np.concatenate', 'len', 'sorted'}
+        if arr == want or (arr == want_pos and not fa_.vararg and fa_.params[1:2] == ['spike_order']):
+            ctx.holds('C11.A1', f, '%s = concat(shifted inputs)[spike_order]' % nm, nm)
+        elif arr is None and names:
+            ctx.violated('C11.A1', f, nm, '%s is not saved by write_spike_clusters (saved: %s)' % (nm, sorted(names)))
+        elif arr is not None and _vocab(arr, VOCW):
+            ctx.violated('C11.A1', f, nm, '%s is saved as %s' % (nm, show(arr)[:90]))
+        else:
+            ctx.undecided('C11.A1', f, 'what write_spike_clusters saves as %s was not recognised (%s)' % (nm, show(arr)[:60] if arr is not None else 'nothing'))
     ctx.check('cluster_probes.npy' in names, 'C11.S1', f, 'cluster_probes.npy', 'the per-cluster probe table is saved', 'cluster_probes.npy is not saved')
     # write_cluster_data: keys shifted by the cluster offsets of their probe
     g = repo.lookup_method(cls, 'write_cluster_data')
